@@ -346,22 +346,60 @@ theorem count_spec : Statement_count_spec := by
     obtain ⟨seen, h, _⟩ := count_star_inv a hk hs rows
     simp [aggValue, h, AccSt.value]
 
-/-- SUM adds the (DISTINCT) numeric values exactly; its datatype is the XPath promotion of their datatypes,
-    starting from the integer zero -/
+/-- SUM adds the (DISTINCT) numeric values from the integer 0, LEFT TO RIGHT in solution order (`sumLR`, Spec.lean):
+    exactly while only integers / decimals are involved, and — as CPython does once an xsd:double / xsd:float value has
+    been met — by converting both operands to binary64 and rounding the exact sum to binary64 (`addNum`); its datatype is
+    the XPath promotion of the datatypes.  Without floating operands this is the exact sum. -/
 def Statement_sum_spec : Prop :=
   ∀ (a : AggSpec) (rows : List Row), a.kind = .sum →
     aggValue a rows = some (mkNum (promoteAll .integer ((numArgs a rows).map (·.1)))
-      (sumRat ((numArgs a rows).map (·.2.1))) (maxScale ((numArgs a rows).map (·.2.2))))
+      (sumLR (numArgs a rows)) (maxScale ((numArgs a rows).map (·.2.2)))) ∧
+    (((numArgs a rows).map (·.1)).any DT.isFloating = false →
+      sumLR (numArgs a rows) = sumRat ((numArgs a rows).map (·.2.1)))
 
 theorem sum_spec : Statement_sum_spec := by
   intro a rows hk
   obtain ⟨seen, h, _⟩ := sum_inv a hk rows
-  simp [aggValue, h, AccSt.value, sumDT_getD]
+  exact ⟨by simp [aggValue, h, AccSt.value, sumDT_getD], sumLR_exact _⟩
+
+/-- `sumLR` is the fold of CPython's additions in solution order: the running value is a `float` from the first
+    xsd:double / xsd:float operand on; from then on every step is `round64 (round64 running + round64 next)` (round to
+    nearest, ties to even; `F.roundF`, Float.lean); before, it is exact.  The datatype of the SUM is floating exactly
+    when an operand is.  Because of the rounding the SUM of doubles depends on the order of the solutions
+    (0.1 + 0.2 + 0.3 = 0.6000000000000001, 0.3 + 0.2 + 0.1 = 0.6; 2^53 + 1 + 1 = 2^53, 1 + 1 + 2^53 = 2^53 + 2). -/
+def Statement_sum_double_spec : Prop :=
+  sumLR [] = 0 ∧
+  (∀ (ns : List (DT × Rat × Nat)) (n : DT × Rat × Nat),
+    sumLR (ns ++ [n]) = addNum (((ns ++ [n]).map (·.1)).any DT.isFloating) (sumLR ns) n.2.1) ∧
+  (∀ v x : Rat, addNum true v x = F.roundF (F.roundF v + F.roundF x) ∧ addNum false v x = v + x) ∧
+  (∀ (ds : List DT), (∀ d ∈ ds, d.isNumericOp = true) →
+    (promoteAll .integer ds).isFloating = ds.any DT.isFloating) ∧
+  (∀ v : Rat, F.roundF (-v) = - F.roundF v)
+
+theorem sum_double_spec : Statement_sum_double_spec := by
+  refine ⟨rfl, fun ns n => ?_, fun v x => ⟨rfl, rfl⟩, fun ds h => ?_, fun v => ?_⟩
+  · rw [sumLR_snoc]; simp [List.any_append]
+  · rw [promoteAll_floating ds .integer (by decide) h]; rfl
+  · exact roundF_neg v
+
+def dbl (m : Int) (s : Nat) : DT × Rat × Nat := (.double, F.roundF (mkRat m (pow10 s)), s)
+
+/-- order dependence of a SUM over doubles, on the concrete binary64 values -/
+theorem sum_double_order_witness :
+    sumLR [dbl 1 1, dbl 2 1, dbl 3 1] ≠ sumLR [dbl 3 1, dbl 2 1, dbl 1 1] ∧
+    F.floatLex (sumLR [dbl 1 1, dbl 2 1, dbl 3 1]) = "0.6000000000000001".toList.map Char.toNat ∧
+    F.floatLex (sumLR [dbl 3 1, dbl 2 1, dbl 1 1]) = "0.6".toList.map Char.toNat ∧
+    sumLR [dbl 90071992547409920 1, dbl 1 0, dbl 1 0] = 9007199254740992 ∧
+    sumLR [dbl 1 0, dbl 1 0, dbl 90071992547409920 1] = 9007199254740994 ∧
+    -- a decimal met after a double is converted to binary64 first; before, decimals add exactly
+    sumLR [(.decimal, 1 / 10, 1), (.decimal, 2 / 10, 1), dbl 3 1] = F.roundF (F.roundF (3 / 10) + F.roundF (3 / 10)) := by
+  decide +kernel
 
 /-- AVG = Sum / Count over the (DISTINCT) numeric values, integer 0 for none; xsd:decimal unless a value is
-    xsd:float/xsd:double (then a floating datatype).  The decimal TERM is determined too: its lexical form has
-    `avgScale q (largest scale among the values)` fraction digits — what Python's `Decimal(sum) / Decimal(count)`
-    gives (see `decimal_scale_spec`) — so row identity under DISTINCT is predicted, not only the value. -/
+    xsd:float/xsd:double.  Without floating values: the exact quotient, and the decimal TERM is determined too (its lexical
+    form has `avgScale q (largest scale among the values)` fraction digits — what Python's `Decimal(sum) / Decimal(count)`
+    gives, see `decimal_scale_spec`).  With a floating value: the left-to-right binary64 sum `sumLR` divided by the count
+    and rounded to binary64 (`float / int`), with a floating datatype. -/
 def Statement_avg_spec : Prop :=
   ∀ (a : AggSpec) (rows : List Row), a.kind = .avg →
     let ns := numArgs a rows
@@ -370,7 +408,7 @@ def Statement_avg_spec : Prop :=
     (ns ≠ [] → (ns.map (·.1)).any DT.isFloating = false →
       aggValue a rows = some (.num .decimal q (avgScale q (maxScale (ns.map (·.2.2)))))) ∧
     (ns ≠ [] → (ns.map (·.1)).any DT.isFloating = true →
-      ∃ d, d.isFloating = true ∧ aggValue a rows = some (mkNum d q 0))
+      ∃ d, d.isFloating = true ∧ aggValue a rows = some (mkNum d (F.roundF (sumLR ns / ((ns.length : Nat) : Rat))) 0))
 
 theorem avg_spec : Statement_avg_spec := by
   intro a rows hk
@@ -382,7 +420,7 @@ theorem avg_spec : Statement_avg_spec := by
     obtain ⟨d0, rfl, _, hfl⟩ := hdt.2 hn
     have hlen : (numArgs a rows).length ≠ 0 := fun e => hn (List.length_eq_zero_iff.1 e)
     rw [hf] at hfl
-    simp [aggValue, h, AccSt.value, hlen, hfl]
+    simp [aggValue, h, AccSt.value, hlen, hfl, sumLR_exact _ hf]
   · intro hn hf
     obtain ⟨d0, rfl, _, hfl⟩ := hdt.2 hn
     have hlen : (numArgs a rows).length ≠ 0 := fun e => hn (List.length_eq_zero_iff.1 e)
